@@ -86,9 +86,12 @@ def values_for(ty, cls, rng, n):
                 "y0001": [instant(1, 1, 1, 0, 0, 0, 0)], "epoch": [instant(1970, 1, 1, 0, 0, 0, 0)],
                 "leapday": [instant(2000, 2, 29, 12, 0, 0, 0), instant(2024, 2, 29, 23, 59, 59, 5)],
                 "y9999end": [instant(9999, 12, 31, 23, 59, 59, 999999999)], "nanos1": [instant(2017, 1, 2, 3, 4, 5, 1)],
-                "nanosmax": [instant(2017, 1, 2, 3, 4, 5, 999999999)], "millis": [instant(2017, 1, 2, 3, 4, 5, 123000000)]}[cls]
+                "nanosmax": [instant(2017, 1, 2, 3, 4, 5, 999999999)], "millis": [instant(2017, 1, 2, 3, 4, 5, 123000000), instant(2017, 1, 2, 3, 4, 5, 1000000), instant(2017, 1, 2, 3, 4, 5, 12345000),
+                           instant(2017, 1, 2, 3, 4, 5, 1000), instant(2017, 1, 2, 3, 4, 5, 99999000), instant(2017, 1, 2, 3, 4, 5, 100000000),
+                           instant(2017, 1, 2, 3, 4, 5, 10), instant(2017, 1, 2, 3, 4, 5, 1230)]}[cls]
         lo, hi = DAYS(1, 1, 1) * 86400 - 366 * 86400, DAYS(9999, 12, 31) * 86400 + 86399
-        return base + [{"secs": lo + rng.next() % (hi - lo + 1), "nanos": rng.below(10**9)} for _ in range(n)]
+        return base + [{"secs": lo + rng.next() % (hi - lo + 1),
+                        "nanos": rng.below(10**9) if i % 3 == 0 else rng.below(10**5) * rng.choice([1, 10, 1000, 10000])} for i in range(n)]
     if ty == "string":
         # white space at the edges (blank, tab, line feed, no-break space) is part of the value
         return {"empty": [""], "ascii": ["hello world", " lead", "trail ", " ", "\ttab\t", "line\n"], "reserved": ["a/b?c=d&e#f%20+ ", "%41", "+"],
